@@ -104,4 +104,20 @@ def generate():
     items.append("def writePushFutexWait : Bool := %s" % flag(re.sub(r"\s+", "", re.search(r"push\s*<([^>]*)>", wr).group(1)), 1, "write push"))
     items.append("def closePushFutexWait : Bool := %s" % flag(close_flags, 1, "close push"))
     items.append("def popFutexWake : Bool := %s" % flag(re.sub(r"\s+", "", re.search(r"try_pop_n\s*<([^>]*)>", kw).group(1)), 1, "try_pop_n"))
+    # scratch storage of discard() (called concurrently by the logging threads) and of
+    # write_use_plain_writev (writer thread only): per thread (thread_local or automatic) or shared
+    def storage(body, name, what):
+        m = re.search(r"(?:^|[;{}\n])[ \t]*((?:static\s+|thread_local\s+)*)((?:::)?std::vector\s*<[^;=&]*>)\s+%s\s*;" % name, body)
+        if m:
+            q = m.group(1)
+            if "thread_local" in q:
+                return "thread_local"
+            return "static" if "static" in q else "automatic"
+        if re.search(r"\b%s\b" % name, body):
+            return "shared"      # a reference / member / global declared elsewhere
+        raise ExtractError("log: %s does not use %s" % (what, name))
+    dc = function_body(app, r"AsyncFileAppender::discard\s*\(")
+    kinds = [storage(dc, "iov", "discard"), storage(dc, "pages", "discard")]
+    items.append('def discardScratchStorage : String := "%s"' % ",".join(kinds))
+    items.append("def discardScratchPerThread : Bool := %s" % ("true" if all(k in ("thread_local", "automatic") for k in kinds) else "false"))
     emit("Log", items)
